@@ -58,3 +58,11 @@ Example ex_ro_run :
   | Exn _ => False
   end.
 Proof. vm_compute. repeat split. Qed.
+
+(* the drain pattern on plain bytes: get(2) answers all three bytes, two are sent *)
+Example ex_flush :
+  let o := exec 4 6 o_new [OAppend [1;2;3]%N] in
+  snd (step 4 6 o (OGet 2 false)) = RBytes [1;2;3]%N /\
+  step 4 6 o (OSkip 2 true) =
+    (mkobuf (Some (mkfbuf KBio (mkfile [1;2;3]%N 2 false) 1)) [] false, RUnit).
+Proof. vm_compute. split; reflexivity. Qed.
